@@ -39,6 +39,15 @@ R3 == { <<RJ(F("m", <<X>>), ht, Lit("none", <<0, 0>>, <<"vars", "S", "E">>), Lit
       \cup { <<RJ(F("m", <<X, Var("T")>>), <<"none">>, Lit("none", <<0, 0>>, <<"var1", "T">>), LitC("none", <<0, 0>>, a2))>> : a2 \in {<<"var1", "T">>, <<"vars", "T", "E">>, <<"vars", "S", "T">>} }
       \cup { <<RJ(F("m", <<X>>), <<"none">>, Lit("none", <<0, 0>>, <<"vars", "S", "E">>), LitC(op, w, <<"none">>))>> : op \in {"dm", "bm", "dp", "bp"}, w \in {<<0, 1>>, <<1, 2>>} }
       \cup { <<RJ(F("m", <<X>>), <<"none">>, Lit(op, <<0, 2>>, <<"none">>), LitC("none", <<0, 0>>, <<"vars", "S", "E">>))>> : op \in {"dm", "bp"} }
+\* a let-transform on a temporal rule: the computed column goes into the head, the head annotation still applies
+RL(h, ht, l1, lt) == [h |-> h, ht |-> ht, let |-> lt] @@ l1
+R4 == { <<RL(F("lh", <<X, Var("V")>>), ht, Lit(op, <<0, 2>>, ann), lt)>> :
+          ht \in {<<"none">>, <<"now">>, <<"const", 1, 4>>}, op \in {"none", "dm", "bp"}, ann \in {<<"none">>},
+          lt \in {<<"V", Ap("fn:list", <<X>>)>>, <<"V", Ap("fn:plus", <<Num(1), Num(2)>>)>>} }
+      \cup { <<RL(F("lh", <<X, Var("V")>>), <<"vars", "S", "E">>, Lit("none", <<0, 0>>, <<"vars", "S", "E">>), lt)>> :
+          lt \in {<<"V", Ap("fn:list", <<X>>)>>, <<"V", Ap("fn:pair", <<X, Num(1)>>)>>} }
+      \cup { <<RL(F("lh", <<X, Var("V")>>), <<"vars", "S", "E">>, Lit("none", <<0, 0>>, <<"vars", "S", "E">>), <<"V", Ap("fn:list", <<X>>)>>),
+               R(F("out", <<X>>), <<"none">>, [op |-> op, w |-> <<0, 2>>, atom |-> F("lh", <<X, Var("W")>>), ann |-> <<"none">>])>> : op \in {"dm", "bm"} }
 \* C05 for temporal programs: several, possibly overlapping and nested, intervals of one atom on a 0..9 timeline
 \* (a long early interval that out-lasts later short ones, equal starts, equal ends, touching intervals)
 IVO == {<<0, 9>>, <<0, 5>>, <<0, 1>>, <<1, 2>>, <<1, 8>>, <<2, 3>>, <<3, 4>>, <<4, 4>>, <<5, 7>>, <<6, 9>>, <<8, 9>>, <<NEG, 3>>, <<2, POS>>}
